@@ -12,9 +12,10 @@ TRUSTED = [
     "hand-written model Host.lean (set_file_content / set_root_file = collect_sources over the inputs), tied by correspondence of file sets and include maps",
     "include resolution in the correspondence uses a flat directory (name resolves iff the file exists); other resolution paths are C16's",
 ]
-RULE = ("histories over 2-4 files: every history of <= 3 (quick) / <= 4 (thorough) operations drawn from {edit file to one of 3 "
-        "text variants keeping the root, edit-and-make-root, switch root}, plus random histories of 5-10 operations; text variants "
-        "add/remove include statements and switch between clean and faulty declarations; a history is non-trivial if it changes "
+RULE = ("histories over 2-4 files: every history of <= 2 operations and a 2% sample of those of 3 (quick) / every history of <= 3 and a 1% "
+        "sample of those of 4 (thorough), drawn from {edit a file to one of its text variants keeping the root, edit-and-make-root, switch root "
+        "with or without the text}, plus random histories of 5-10 operations and histories with files changing on disk; text variants "
+        "add/remove include statements, switch between clean and faulty declarations, start with a byte order mark, use every statement kind; a history is non-trivial if it changes "
         "the include structure or the root at least once after the first root selection; every second history is queried in full "
         "after each operation, so that the derived queries are recomputed incrementally")
 FINISH = dict(level="proof", trusted_base=TRUSTED, rule=RULE)
